@@ -102,6 +102,10 @@ def call(f, *args):
     return {"t": "call", "f": f, "as": list(args)}
 
 
+def dollar(n):
+    return {"t": "dollar", "n": n}
+
+
 def arr(*es):
     return {"t": "arr", "es": list(es)}
 
@@ -307,6 +311,8 @@ class Renderer:
         if t == "call":
             s = "%s(%s)" % (self.e(x["f"], P_CALL), ", ".join(self.e(a, P_ASSIGN) for a in x["as"]))
             return "(%s)" % s if self.full else s
+        if t == "dollar":                 # $n: the n-th layer of the current packet (null when there is none)
+            return "$%d" % x["n"]
         if t == "dot":
             return "%s.%s" % (self.e(x["e"], P_CALL), x["p"])
         if t == "arr":
